@@ -47,17 +47,42 @@ int run_phantom(const Args& a) {
         }
         std::sort(present.begin(), present.end());
         for (auto& k : present) { yput(main_ses.tok, storage, k, make_value(next_id.fetch_add(1), k, 24)); }
+        // remove a part again: first keys of borders vanish, so that a border's key range starts before its
+        // first key (absent in-range keys can be routed into a border that holds no in-range key)
+        if (r.chance(2, 3)) {
+            std::vector<std::string> kept;
+            unsigned pct = static_cast<unsigned>(r.range(10, 45));
+            for (auto& k : present) {
+                if (r.chance(pct, 100) && kept.size() + 8 < present.size()) {
+                    yk::remove(main_ses.tok, storage, k);
+                    absent.push_back(k);
+                } else {
+                    kept.push_back(k);
+                }
+            }
+            if (kept.size() >= 8) { present.swap(kept); }
+        }
         main_ses.leave();
         alloc::Counters c0 = alloc::counters();
         // ---- interval and inserts
         std::size_t lo = r.below(present.size());
         std::size_t hi = r.range(lo, present.size() - 1);
-        bool full = r.chance(1, 3);
+        bool full = r.chance(1, 4);
+        bool short_scan = !full && r.chance(1, 2); // few borders: the end-of-scan window is a large part of the scan
+        if (short_scan) { hi = std::min(present.size() - 1, lo + r.below(24)); }
         if (full) {
             lo = 0;
             hi = present.size() - 1;
         }
         std::string lk = present[lo], rk = present[hi];
+        // the right endpoint is often an absent key (the scan then ends at the first key right of it)
+        if (!full && r.chance(1, 2)) {
+            std::vector<std::string> gap;
+            for (auto& k : absent) {
+                if (k > lk && (hi + 1 >= present.size() || k < present[hi + 1]) && k > rk) { gap.push_back(k); }
+            }
+            if (!gap.empty()) { rk = gap[r.below(gap.size())]; }
+        }
         int W = static_cast<int>(r.range(1, 3));
         std::vector<std::vector<std::string>> ins(W);
         std::vector<std::string> all_ins;
@@ -66,7 +91,7 @@ int run_phantom(const Args& a) {
             // candidates inside the interval
             std::vector<std::string> cand;
             for (auto& k : absent) {
-                if (k > lk && k < rk) { cand.push_back(k); }
+                if (k > lk && k <= rk) { cand.push_back(k); }
             }
             std::sort(cand.begin(), cand.end());
             if (cand.empty()) {
@@ -96,7 +121,11 @@ int run_phantom(const Args& a) {
             prof.at(ctl::point::SCAN_NEXT_LOADED) = ctl::Rule{static_cast<uint32_t>(r.range(2000, 40000)), 2, static_cast<uint32_t>(r.range(200, 6000))};
             prof.at(ctl::point::SCAN_BEFORE_FINAL) = ctl::Rule{static_cast<uint32_t>(r.range(2000, 40000)), 2, static_cast<uint32_t>(r.range(200, 6000))};
             if (r.chance(1, 2)) { prof.at(ctl::point::LOCK_ACQ) = ctl::Rule{8000, 2, 3000}; }
-            if (r.chance(1, 3)) { prof.at(ctl::point::ATOMIC) = ctl::Rule{500, 2, 300}; }
+            if (r.chance(1, 2)) { prof.at(ctl::point::ATOMIC) = ctl::Rule{static_cast<uint32_t>(r.range(300, 4000)), 2, static_cast<uint32_t>(r.range(100, 3000))}; }
+            if (short_scan && r.chance(2, 3)) {
+                static const uint32_t pr[] = {4000, 12000, 25000};
+                prof.at(ctl::point::ATOMIC) = ctl::Rule{pr[r.below(3)], 2, static_cast<uint32_t>(r.range(200, 4000))};
+            }
             ctl::g_profile.store(&prof);
         }
         std::atomic<int> writers_left{W};
@@ -114,7 +143,7 @@ int run_phantom(const Args& a) {
             ses.reenter();
             if (tid < W) {
                 // start a little after the reader so that inserts land behind / under / ahead of it
-                for (uint64_t k = tr.below(3000); k > 0; --k) { _mm_pause(); }
+                for (uint64_t k = tr.below(short_scan ? 30000 : 3000); k > 0; --k) { _mm_pause(); }
                 for (auto& k : ins[tid]) {
                     uint64_t i0 = stamp();
                     status s = yput(ses.tok, storage, k, make_value(next_id.fetch_add(1), k, 24), true);
@@ -174,7 +203,7 @@ int run_phantom(const Args& a) {
         auto describe = [&]() {
             JObj d;
             d.str("api", use_cursor ? (r2l ? "iscan-backward" : "iscan-forward") : "scan").boolean("layered", layered).num("keys", present.size()).str("l_key", lk).str("r_key", rk).num("inserters", W).num("inserts", all_ins.size());
-            d.str("insert_position", pos_class).boolean("split_during_round", split).num("result_keys", result_keys.size()).num("keys_present_after", want.size()).num("set_size", nv.size()).num("round", rd);
+            d.boolean("short_scan", short_scan).str("insert_position", pos_class).boolean("split_during_round", split).num("result_keys", result_keys.size()).num("keys_present_after", want.size()).num("set_size", nv.size()).num("round", rd);
             return d;
         };
         if (!reader_problem.empty()) {
@@ -229,5 +258,252 @@ int run_phantom(const Args& a) {
     yk::fin();
     drain_alloc_problems(rep);
     if (rounds_overlap < 5) { rep.inconclusive("fewer than 5 rounds in which an insert overlapped the read"); }
+    return rep.finish();
+}
+
+// ---------------------------------------------------------------------------------------------------
+// C06 micro-races: two persistent threads (one reader, one inserter) meet at a spin barrier hundreds of
+// thousands of times on a small tree, so that windows of a few instructions (between the reader's last
+// validation and its logging of a node, between recording the next pointer and the final check) are hit.
+int run_phantom_micro(const Args& a) {
+    uint64_t seed = a.num("seed", 1);
+    uint64_t races = a.num("races", 200000);
+    bool use_cursor = a.num("cursor", 0) != 0;
+    Report rep(a.str("prop", "C06"), use_cursor ? "conc_phantom_micro_iscan" : "conc_phantom_micro_scan", seed);
+    rep.set_rule("tight two-thread races on small trees (3..12 border nodes, single layer or one sub-layer; keys removed again so that key ranges of borders start before their first key): per race one short "
+                 "scan/cursor with node-version collection over 1..3 borders, whose right endpoint often falls into a gap before the first key of the next border, against one inserter putting 1..2 absent in-range keys "
+                 "(often routed to the last border touched), both released by a spin barrier with a random skew of 0..2000 pause cycles; after both finished the reader re-validates every pair: all fresh => result must "
+                 "contain every inserted key. The tree is rebuilt every 2000 races. distinct_nontrivial = races with overlap by (class, insert target: last-touched border / inside / first border, split?, layered?)");
+    yk::init();
+    Rng r(seed);
+    std::atomic<uint64_t> next_id{1};
+    // shared race descriptor
+    struct Race {
+        std::string lk, rk;
+        std::vector<std::string> ins;
+        uint32_t skew_reader{0}, skew_writer{0};
+    } race;
+    std::string storage = "pm";
+    std::atomic<uint64_t> gen{0};
+    std::atomic<int> done{0};
+    std::atomic<bool> quit{false};
+    // results of the reader
+    std::vector<std::string> result_keys;
+    NvVec nv;
+    bool all_fresh = true;
+    uint64_t rinv = 0, rresp = 0, winv = 0, wresp = 0;
+    std::atomic<int> writer_done{0};
+    std::string reader_problem;
+    bool r2l = false;
+
+    std::thread reader([&] {
+        alloc::set_role(alloc::ROLE_WORKER);
+        ctl::thread_begin(0, seed * 3 + 1);
+        uint64_t seen = 0;
+        Session ses;
+        while (true) {
+            while (gen.load(std::memory_order_acquire) == seen && !quit.load()) { _mm_pause(); }
+            if (quit.load()) { break; }
+            seen = gen.load();
+            ses.reenter();
+            for (uint32_t k = race.skew_reader; k > 0; --k) { _mm_pause(); }
+            nv.clear();
+            result_keys.clear();
+            reader_problem.clear();
+            if (!use_cursor) {
+                std::vector<ScanTuple> tl;
+                rinv = stamp();
+                status s = yk::scan<char>(storage, race.lk, scan_endpoint::INCLUSIVE, race.rk, scan_endpoint::INCLUSIVE, tl, &nv, 0, false);
+                rresp = stamp();
+                if (s != status::OK) { reader_problem = "status " + st(s); }
+                for (auto& t : tl) { result_keys.push_back(std::get<0>(t)); }
+            } else {
+                std::function<bool(yk::node_version64*, yk::node_version64_body)> cb = [&nv](yk::node_version64* p, yk::node_version64_body b) {
+                    nv.emplace_back(b, p);
+                    return false;
+                };
+                std::vector<CursorItem> items;
+                rinv = stamp();
+                status s = cursor_collect(storage, race.lk, scan_endpoint::INCLUSIVE, race.rk, scan_endpoint::INCLUSIVE, r2l, items, 0, &cb);
+                rresp = stamp();
+                if (s != status::OK_SCAN_END) { reader_problem = "status " + st(s); }
+                for (auto& it : items) { result_keys.push_back(it.key); }
+                if (r2l) { std::reverse(result_keys.begin(), result_keys.end()); }
+            }
+            while (writer_done.load(std::memory_order_acquire) == 0) { _mm_pause(); }
+            all_fresh = true;
+            for (auto& [body, ptr] : nv) {
+                if (ptr->get_stable_version() != body) { all_fresh = false; }
+            }
+            ses.leave();
+            done.fetch_add(1);
+        }
+        ctl::thread_end();
+    });
+    std::thread writer([&] {
+        alloc::set_role(alloc::ROLE_WORKER);
+        ctl::thread_begin(1, seed * 3 + 2);
+        uint64_t seen = 0;
+        Session ses;
+        while (true) {
+            while (gen.load(std::memory_order_acquire) == seen && !quit.load()) { _mm_pause(); }
+            if (quit.load()) { break; }
+            seen = gen.load();
+            ses.reenter();
+            for (uint32_t k = race.skew_writer; k > 0; --k) { _mm_pause(); }
+            winv = stamp();
+            for (auto& k : race.ins) {
+                status s = yput(ses.tok, storage, k, make_value(next_id.fetch_add(1), k, 24), true);
+                if (s != status::OK) { rep.violation("phantom:insert-status", "unique insert of an absent key failed", JObj().str("got", st(s)).done()); }
+            }
+            wresp = stamp();
+            ses.leave();
+            writer_done.store(1, std::memory_order_release);
+            done.fetch_add(1);
+        }
+        ctl::thread_end();
+    });
+
+    Session main_ses;
+    std::vector<std::string> present, absent;
+    bool layered = false;
+    uint64_t overlaps = 0;
+    alloc::Counters c0 = alloc::counters();
+    for (uint64_t rc = 0; rc < races && rep.violations() < 10; ++rc) {
+        if (rc % 2000 == 0) {
+            // ---- (re)build a small tree
+            if (rc != 0) { yk::delete_storage(storage); }
+            yk::create_storage(storage);
+            main_ses.reenter();
+            present.clear();
+            absent.clear();
+            layered = r.chance(1, 3);
+            std::size_t nkeys = r.range(24, 90);
+            for (std::size_t i = 0; i < nkeys; ++i) {
+                char b[32];
+                for (int j = 0; j < 4; ++j) {
+                    if (layered) {
+                        snprintf(b, sizeof b, "MICROLAY%04zu", i * 4 + j);
+                    } else {
+                        snprintf(b, sizeof b, "q%05zu", i * 4 + j);
+                    }
+                    (j == 0 ? present : absent).emplace_back(b);
+                }
+            }
+            for (auto& k : present) { yput(main_ses.tok, storage, k, make_value(next_id.fetch_add(1), k, 24)); }
+            std::vector<std::string> kept;
+            unsigned pct = static_cast<unsigned>(r.range(15, 50));
+            for (auto& k : present) {
+                if (r.chance(pct, 100) && kept.size() + 6 < present.size()) {
+                    yk::remove(main_ses.tok, storage, k);
+                    absent.push_back(k);
+                } else {
+                    kept.push_back(k);
+                }
+            }
+            present.swap(kept);
+            std::sort(absent.begin(), absent.end());
+            main_ses.leave();
+            r2l = use_cursor && r.chance(1, 2);
+            rep.count("trees");
+        }
+        // ---- one race
+        std::size_t lo = r.below(present.size());
+        std::size_t hi = std::min(present.size() - 1, lo + r.below(20));
+        race.lk = present[lo];
+        race.rk = present[hi];
+        const char* target = "inside";
+        // right endpoint in the gap after present[hi]
+        std::vector<std::string> gap;
+        for (auto it = std::upper_bound(absent.begin(), absent.end(), present[hi]); it != absent.end() && (hi + 1 >= present.size() || *it < present[hi + 1]); ++it) { gap.push_back(*it); }
+        race.ins.clear();
+        if (!gap.empty() && r.chance(2, 3)) {
+            race.rk = gap[r.below(gap.size())];
+            // keys of the gap up to rk: these may be routed to the border *after* the one holding present[hi]
+            std::vector<std::string> in_gap;
+            for (auto& k : gap) {
+                if (k <= race.rk) { in_gap.push_back(k); }
+            }
+            race.ins.push_back(in_gap[r.below(in_gap.size())]);
+            target = "gap-before-next-border";
+        } else {
+            std::vector<std::string> cand;
+            for (auto it = std::upper_bound(absent.begin(), absent.end(), race.lk); it != absent.end() && *it < race.rk; ++it) { cand.push_back(*it); }
+            if (cand.empty()) { continue; }
+            race.ins.push_back(cand[r.below(cand.size())]);
+            if (r.chance(1, 3)) {
+                std::string k2 = cand[r.below(cand.size())];
+                if (k2 != race.ins[0]) { race.ins.push_back(k2); }
+            }
+        }
+        race.skew_reader = static_cast<uint32_t>(r.below(r.chance(1, 2) ? 200 : 2000));
+        race.skew_writer = static_cast<uint32_t>(r.below(r.chance(1, 2) ? 200 : 2000));
+        writer_done.store(0);
+        done.store(0);
+        gen.fetch_add(1, std::memory_order_release);
+        while (done.load(std::memory_order_acquire) < 2) { _mm_pause(); }
+        rep.eval();
+        // ---- verdict
+        bool overlap = winv < rresp && wresp > rinv;
+        std::vector<std::string> want;
+        for (auto& k : present) {
+            if (k >= race.lk && k <= race.rk) { want.push_back(k); }
+        }
+        for (auto& k : race.ins) { want.push_back(k); }
+        std::sort(want.begin(), want.end());
+        bool complete = result_keys == want;
+        alloc::Counters c1 = alloc::counters();
+        bool split = c1.node_allocs != c0.node_allocs;
+        c0 = c1;
+        auto describe = [&]() {
+            JObj d;
+            d.str("api", use_cursor ? (r2l ? "iscan-backward" : "iscan-forward") : "scan").boolean("layered", layered).str("l_key", race.lk).str("r_key", race.rk).str("inserted", race.ins[0]).str("insert_target", target);
+            d.num("result_keys", result_keys.size()).num("keys_present_after", want.size()).num("set_size", nv.size()).boolean("split", split).num("race", rc);
+            return d;
+        };
+        if (!reader_problem.empty()) {
+            rep.violation("phantom:reader-status", "reader failed: " + reader_problem, describe().done());
+        } else if (nv.empty()) {
+            rep.violation("phantom:empty-version-set", "reader collected no node version", describe().done());
+        } else if (all_fresh && !complete) {
+            rep.violation(std::string("phantom:") + (use_cursor ? "iscan" : "scan") + ":insert-missed-with-fresh-version-set",
+                          "every collected (version,node) pair is unchanged after the race, yet the result lacks a key that was inserted into the interval", describe().done());
+        }
+        const char* cls = !overlap ? "no-overlap" : (all_fresh ? "fresh-and-complete" : "stale");
+        rep.count(std::string("races_") + cls);
+        if (overlap) {
+            ++overlaps;
+            rep.distinct(mix64(hash_bytes(cls), mix64(hash_bytes(target), mix64(split ? 1 : 0, mix64(layered ? 1 : 0, use_cursor ? (r2l ? 2 : 1) : 0)))));
+            rep.count(std::string("overlap_target_") + target);
+            if (rep.get("samples_taken") < 3) {
+                rep.count("samples_taken");
+                rep.sample(describe().str("class", cls).done());
+            }
+        }
+        // ---- restore: remove what was inserted (quiescent)
+        main_ses.reenter();
+        for (auto& k : race.ins) {
+            if (yk::remove(main_ses.tok, storage, k) != status::OK) { rep.violation("phantom:inserted-key-lost", "a key whose insert returned OK cannot be removed at quiescence", JObj().str("key", k).done()); }
+        }
+        main_ses.leave();
+        if (rc % 2000 == 1999) {
+            Model model;
+            main_ses.reenter();
+            for (auto& k : present) {
+                std::pair<char*, std::size_t> o;
+                if (yget(storage, k, o) == status::OK) { model[k] = std::string(o.first, o.second); }
+            }
+            main_ses.leave();
+            coherence_check(rep, storage, model, true, nullptr);
+        }
+    }
+    quit.store(true);
+    reader.join();
+    writer.join();
+    yk::delete_storage(storage);
+    yk::fin();
+    drain_alloc_problems(rep);
+    rep.count("races_with_overlap", overlaps);
+    if (overlaps < 50) { rep.inconclusive("fewer than 50 races in which the insert overlapped the read"); }
     return rep.finish();
 }
